@@ -10,6 +10,7 @@ import (
 	"fmt"
 	"hash/crc32"
 	"strconv"
+	"strings"
 	"testing"
 
 	"github.com/bluenviron/gortsplib/v5/pkg/description"
@@ -55,6 +56,7 @@ type vf23Unit struct {
 	Pkts      []vf23Pkt `json:"pkts"`
 	PSig      []vf23Sig `json:"psig"`
 	DSig      []vf23Sig `json:"dsig"`
+	DErrs     []string  `json:"derrs"` // errors of the depacketizer other than "more packets needed"
 }
 
 func vf23Format(codec, branch string) format.Format {
@@ -301,7 +303,7 @@ func TestVerif_C23_Runs(t *testing.T) {
 			pts += 3000
 			payload, sizes := vf23Payload(c.Codec, uc, byte(17*k+nrun))
 			ou := vf23Unit{Class: uc.Class, Sizes: sizes, PTS: strconv.FormatInt(pts, 10),
-				Uniform: frameCodec[c.Codec] || false, Pkts: []vf23Pkt{}, PSig: []vf23Sig{}, DSig: []vf23Sig{}}
+				Uniform: frameCodec[c.Codec] || false, Pkts: []vf23Pkt{}, PSig: []vf23Sig{}, DSig: []vf23Sig{}, DErrs: []string{}}
 
 			var delivered *unit.Unit
 			if c.Branch == "nonrtp" {
@@ -329,8 +331,10 @@ func TestVerif_C23_Runs(t *testing.T) {
 						break
 					}
 					if err != nil {
+						// e.g. the KLV depacketizer reports "need more packets" as an error for every
+						// non-final fragment: keep feeding the publisher's packets
 						ou.Err, ou.Msg = true, err.Error()
-						break
+						continue
 					}
 					if !u.NilPayload() {
 						delivered = u
@@ -351,11 +355,14 @@ func TestVerif_C23_Runs(t *testing.T) {
 					var derr error
 					pan, msg := verifrt.Catch(func() { p, derr = dec.decode(pkt) })
 					if pan {
-						got = append(got, []byte("panic: "+msg))
+						ou.DErrs = append(ou.DErrs, "panic: "+msg)
 						continue
 					}
 					if derr != nil {
-						got = append(got, []byte("error: "+derr.Error()))
+						// waiting for the next fragment is not a depacketization failure
+						if !strings.Contains(derr.Error(), "more packets") {
+							ou.DErrs = append(ou.DErrs, derr.Error())
+						}
 						continue
 					}
 					if p == nil {
